@@ -91,6 +91,7 @@ def _cases(draw, tier):
                 'idirs': draw(st.sampled_from([['inc_a', 'inc_b'], ['inc_b', 'inc_a', 'inc_b']]))}
     cfg = draw(G.layout_isa(zones=False))
     why = draw(st.sampled_from(['twice-direct', 'twice-nested', 'diamond', 'missing', 'ambiguous', 'self',
+                                 'ambiguous-copy-next-to-includer', 'ambiguous-copy-next-to-nested-includer',
                                  'includer-file-label-used-in-included', 'included-file-label-used-in-includer',
                                  'includer-file-label-used-in-nested']))
     byte = {'t': 'data', 'd': '.byte', 'vals': [['num', 7, 'dec']]}
@@ -122,6 +123,9 @@ def _cases(draw, tier):
         items = [{'t': 'label', 'name': '_mine'}, dict(byte),
                  {'t': 'include', 'file': 'outer.asm', 'path': 'inc_b/outer.asm', 'items': [
                      dict(byte), {'t': 'include', 'file': 'common.asm', 'path': 'inc_a/common.asm', 'items': [probe]}]}]
+    elif why == 'ambiguous-copy-next-to-nested-includer':
+        items = [dict(byte), {'t': 'include', 'file': 'outer.asm', 'path': 'inc_b/outer.asm',
+                              'items': [dict(byte), copy.deepcopy(common)]}]
     else:
         items = [dict(byte), copy.deepcopy(common), dict(byte)]
     # surround with a few ordinary lines
@@ -246,6 +250,10 @@ def execute(case, ctx):
             del files['inc_a/common.asm']
         if why == 'ambiguous':
             files['inc_b/common.asm'] = '.byte 9\n'
+        if why == 'ambiguous-copy-next-to-includer':
+            files['common.asm'] = '.byte 9\n'              # next to main.asm, and in inc_a
+        if why == 'ambiguous-copy-next-to-nested-includer':
+            files['inc_b/common.asm'] = '.byte 9\n'        # next to outer.asm, and in inc_a
         argv = _argv(fname, case['idirs'])
         res = runner.run_forked(argv, files)
         detail = {'sources': {k: v for k, v in files.items() if k.endswith('.asm')}, 'argv': argv, 'why': why, 'run': res.brief()}
